@@ -945,3 +945,118 @@ Proof.
   rewrite <- (map_id ls) at 2. apply map_ext_in. intros l Hl.
   rewrite Forall_forall in H. destruct (H l Hl). apply rejoined_identity; assumption.
 Qed.
+
+(* ---------- the width option ---------- *)
+Theorem cli_identity_proof wstr w keep delims ls :
+  parse_width wstr = Some w ->
+  Forall (fun l => utf8_valid l = true /\ short_line l) ls -> forallb (no_delim 10) ls = true ->
+  ~ In 0 delims ->
+  foldfilter_cli wstr keep delims (fun x => x) (unrecords 10 ls) = CRun (TOk (unrecords 10 ls)).
+Proof.
+  intros Hp H Hlf H0. unfold foldfilter_cli. rewrite Hp. f_equal.
+  apply (tool_identity_proof {| w_width := w; w_keep := keep; w_delims := delims |} ls H Hlf H0).
+Qed.
+
+Lemma digits_value_acc : forall s acc v, digits_value acc s = Some v -> acc <= v \/ acc < 0.
+Proof.
+  induction s as [|c r IH]; intros acc v H; simpl in H.
+  - inversion H. lia.
+  - destruct ((48 <=? c) && (c <=? 57)) eqn:E; [|discriminate].
+    destruct (IH _ _ H) as [I | I]; lia.
+Qed.
+
+(* what is accepted as a width: non-empty, decimal digits only, below 2^64 *)
+Theorem parse_width_spec s w : parse_width s = Some w ->
+  s <> [] /\ forallb (fun c => (48 <=? c) && (c <=? 57)) s = true /\ 0 <= w < 18446744073709551616.
+Proof.
+  unfold parse_width. destruct s as [|c r]; [discriminate|]. set (l := c :: r).
+  destruct (digits_value 0 l) as [v|] eqn:E; [|discriminate].
+  destruct (v <? 18446744073709551616) eqn:Ev; [|discriminate]. intros H. inversion H; subst.
+  split; [discriminate|]. split.
+  - clear Ev H. revert E. generalize 0 at 1. induction l as [|x l IH]; intros acc E; [reflexivity|].
+    simpl in E. simpl. destruct ((48 <=? x) && (x <=? 57)); [|discriminate]. simpl. eapply IH; eauto.
+  - destruct (digits_value_acc _ _ _ E); lia.
+Qed.
+
+(* ================= the stream-level data flow agrees with the per-line view ================= *)
+Lemma no_delim_app' d a b : no_delim d (a ++ b) = no_delim d a && no_delim d b.
+Proof. unfold no_delim. apply forallb_app. Qed.
+
+(* pieces of an LF-free line are LF-free *)
+Lemma interleave_no_lf : forall ps ds, length ps = length ds -> no_delim 10 (interleave ps ds) = true ->
+  forallb (no_delim 10) ps = true.
+Proof.
+  induction ps as [|p ps IH]; intros ds Hl H; [reflexivity|].
+  destruct ds as [|d ds]; [discriminate|]. simpl in H.
+  rewrite !no_delim_app' in H. apply andb_true_iff in H. destruct H as [Hp H].
+  apply andb_true_iff in H. destruct H as [_ H].
+  simpl. rewrite Hp. simpl. apply (IH ds); [simpl in Hl; lia | exact H].
+Qed.
+
+Lemma join_app : forall answers dels more, length answers = length dels ->
+  join (answers ++ more) dels = Some (interleave answers (map c_str dels), more).
+Proof.
+  induction answers as [|a ar IH]; intros dels more H; destruct dels as [|d dr]; try discriminate.
+  - simpl. destruct more; reflexivity.
+  - simpl. rewrite IH by (simpl in H; lia). reflexivity.
+Qed.
+
+Definition lp (g : list Z -> list Z) : Prop := forall l, no_delim 10 l = true -> no_delim 10 (g l) = true.
+
+Lemma wrap_all_spec o g : lp g -> forall ls,
+  Forall (fun l => utf8_valid l = true /\ short_line l) ls -> forallb (no_delim 10) ls = true ->
+  exists pieces dss,
+    wrap_all o ls = WAOk pieces dss /\ forallb (no_delim 10) pieces = true /\
+    collect_lines dss (map g pieces) = Some (map (rejoined o g) ls).
+Proof.
+  intros Hg. induction ls as [|l r IH]; intros H Hlf.
+  - exists [], []. repeat split.
+  - inversion H as [|? ? [Hv Hs] Hr]; subst. simpl in Hlf. apply andb_true_iff in Hlf. destruct Hlf as [Hl Hlfr].
+    destruct (wrap_lines_correct l o Hv Hs) as (ps & ds & E & Hlen & _ & Hi & _).
+    destruct (IH Hr Hlfr) as (ps' & dss & E' & Hn' & Hc').
+    assert (forallb (no_delim 10) ps = true) as Hn by (apply (interleave_no_lf ps ds Hlen); rewrite Hi; exact Hl).
+    exists (ps ++ ps'), (ds :: dss). simpl. rewrite E, E'. split; [reflexivity|]. split.
+    + rewrite forallb_app, Hn, Hn'. reflexivity.
+    + rewrite map_app. simpl. rewrite join_app by (rewrite map_length; exact Hlen). rewrite Hc'.
+      unfold rejoined at 2, wrap_fn. rewrite E. reflexivity.
+Qed.
+
+(* With a line-preserving child, the tool as it really moves data (one stream of all pieces to the
+   child, one stream of answers back, the collector counting answers per queue entry) produces for
+   every line exactly that line's pieces' answers re-joined: no answer is attributed to a
+   neighbouring line. *)
+Theorem stream_attribution_proof o g ls : lp g ->
+  Forall (fun l => utf8_valid l = true /\ short_line l) ls -> forallb (no_delim 10) ls = true ->
+  foldfilter_stream o (line_child g) fold_feeder_strip_cr fold_collector_strip_cr (unrecords 10 ls)
+  = TOk (unrecords 10 (map (rejoined o g) ls)).
+Proof.
+  intros Hg H Hlf. unfold foldfilter_stream, fold_feeder_strip_cr, fold_collector_strip_cr, line_child.
+  rewrite (records_unrecords 10 ls Hlf).
+  destruct (wrap_all_spec o g Hg ls H Hlf) as (pieces & dss & E & Hn & Hc). rewrite E.
+  rewrite (records_unrecords 10 pieces Hn).
+  rewrite records_unrecords.
+  - rewrite Hc. reflexivity.
+  - rewrite forallb_forall. intros x Hx. apply in_map_iff in Hx. destruct Hx as (p & <- & Hp).
+    apply Hg. rewrite forallb_forall in Hn. apply Hn. exact Hp.
+Qed.
+
+(* whatever the child does: success means it wrote at least one line per piece *)
+Lemma join_consumes : forall dels answers s rest, join answers dels = Some (s, rest) ->
+  length answers = (length dels + length rest)%nat.
+Proof.
+  induction dels as [|d dr IH]; intros answers s rest H.
+  - destruct answers; simpl in H; inversion H; subst; reflexivity.
+  - destruct answers as [|a ar]; simpl in H; [discriminate|].
+    destruct (join ar dr) as [[s' rest']|] eqn:E; [|discriminate]. inversion H; subst.
+    simpl. rewrite (IH _ _ _ E). reflexivity.
+Qed.
+
+Lemma collect_lines_consumes : forall dss answers out, collect_lines dss answers = Some out ->
+  (length (concat dss) <= length answers)%nat /\ length out = length dss.
+Proof.
+  induction dss as [|ds r IH]; intros answers out H.
+  - simpl in H. inversion H; subst. simpl. split; [lia | reflexivity].
+  - simpl in H. destruct (join answers ds) as [[s rest]|] eqn:E; [|discriminate].
+    destruct (collect_lines r rest) as [o'|] eqn:E'; [|discriminate]. inversion H; subst.
+    destruct (IH _ _ E') as [I1 I2]. rewrite (join_consumes _ _ _ _ E). simpl. rewrite app_length, I2. split; [lia | reflexivity].
+Qed.
